@@ -92,6 +92,8 @@ func (k *check) concJudge(name string, payloads []cw.PayloadSpec, outs []cw.Conc
 	c := k.c
 	files := map[string]string{"payloads.json": mustJSON(payloads)}
 	seen := 0
+	var foreign, panics, rawInc, storeFailed, rawReads, stores int
+	detail := ""
 	by := make([]int, len(payloads))
 	for i, o := range outs {
 		if !oks[i] {
@@ -115,18 +117,27 @@ func (k *check) concJudge(name string, payloads []cw.PayloadSpec, outs []cw.Conc
 				by[j] += n
 			}
 		}
-		if o.Foreign > 0 {
-			k.violate("concurrency/"+name+"/foreign-content", fmt.Sprintf("%d concurrent loads returned true with content that is none of the complete payloads stored: %s", o.Foreign, o.Detail), files)
+		foreign += o.Foreign
+		panics += o.Panics
+		rawInc += o.RawIncomplete
+		storeFailed += o.StoreFailed
+		rawReads += o.RawReads
+		stores += o.Stores
+		if o.Detail != "" && (o.Foreign > 0 || o.Panics > 0 || o.RawIncomplete > 0) && detail == "" {
+			detail = o.Detail
 		}
-		if o.Panics > 0 {
-			k.violate("concurrency/"+name+"/panic", fmt.Sprintf("%s panicked %d times: %s", o.Role, o.Panics, o.Detail), files)
-		}
-		if o.RawIncomplete > 0 {
-			k.violate("concurrency/"+name+"/partial-file-visible", fmt.Sprintf("%d of %d raw reads of the key path saw an incomplete file while stores were in flight: %s", o.RawIncomplete, o.RawReads, o.Detail), files)
-		}
-		if o.StoreFailed > 0 {
-			k.violate("concurrency/"+name+"/store-failed", fmt.Sprintf("%d of %d concurrent stores returned false in a healthy cache directory", o.StoreFailed, o.Stores), files)
-		}
+	}
+	if foreign > 0 {
+		k.violate("concurrency/"+name+"/foreign-content", fmt.Sprintf("%d concurrent loads returned true with content that is none of the complete payloads stored: %s", foreign, detail), files)
+	}
+	if panics > 0 {
+		k.violate("concurrency/"+name+"/panic", fmt.Sprintf("concurrent Store/Load panicked %d times: %s", panics, detail), files)
+	}
+	if rawInc > 0 {
+		k.violate("concurrency/"+name+"/partial-file-visible", fmt.Sprintf("%d of %d raw reads of the key path saw an incomplete file while stores were in flight: %s", rawInc, rawReads, detail), files)
+	}
+	if storeFailed > 0 {
+		k.violate("concurrency/"+name+"/store-failed", fmt.Sprintf("%d of %d concurrent stores returned false in a healthy cache directory", storeFailed, stores), files)
 	}
 	for j, n := range by {
 		if n > 0 {
